@@ -20,7 +20,7 @@ import ast
 from ..astutil import (text, access_path, calls_in, func_params, stmts_of, is_const, const_value, method_call, range_bounds, single_defs, canon)
 from ..loader import where, AnalysisError
 from ..paths import Enumerator
-from ..terms import Terms, PathEnv
+from ..terms import Terms, PathEnv, canonical
 from .. import poly
 
 
@@ -290,18 +290,31 @@ def r3_halton(ctx, repo):
                 detail = ("the number of digits is computed as %s: a ratio of floating-point logarithms under-counts by one when the index is an exact power of the base "
                           "(log(243)/log(3) = 4.999...), so the last digit of such indices is dropped" % text(c_))
     ctx.check3(state, "R3", C2, where(doe, vdc), "radical-inverse recurrence: i, r = divmod(i, base); denom *= base; x += r / denom, from (0, 1)", detail, detail, key="recurrence")
-    # wiring
+    # wiring: the value build_halton returns, as a canonical term
     bh = doe.functions.get("build_halton")
-    c = [c for c in calls_in(bh) if access_path(c.func) == "halton"]
-    okw = False
-    if c:
-        kw = {k.arg: text(k.value) for k in c[0].keywords}
-        args = [text(a) for a in c[0].args]
-        okw = (kw.get("num_points", args[0] if args else None) == "num_samples") and (kw.get("dimension", args[1] if len(args) > 1 else None) == "factor_count")
-    sc = any(access_path(c2.func) == "construct_df_from_random_matrix" for c2 in calls_in(bh))
-    wstate = True if (okw and sc) else (False if (c and not okw) else None)
+    d_ = func_params(bh)[0]
+    ns_ = func_params(bh)[1] if len(func_params(bh)) > 1 else "num_samples"
+    rts = [canonical(t) for _, t in Terms(bh).returns if t is not None]
+    hcalls = [c for c in calls_in(bh) if access_path(c.func) == "halton"]
+    want_w = ("construct_df_from_random_matrix(halton(num_points={n}, dimension=len({d})), np.array([{d}[_0] for _0 in {d}]))".format(n=ns_, d=d_),
+              "construct_df_from_random_matrix(halton({n}, len({d})), np.array([{d}[_0] for _0 in {d}]))".format(n=ns_, d=d_))
+    wstate = None
+    if rts and all(r in want_w for r in rts):
+        wstate = True
+    elif hcalls:
+        # a recognised contradiction: halton called with something else than (samples, number of declared parameters)
+        TH = Terms(bh)
+        st_ = [x for x in stmts_of(bh) if not isinstance(x, (ast.For, ast.If, ast.While, ast.Try, ast.With)) and hcalls[0] in list(ast.walk(x))]
+        kw = {k.arg: k.value for k in hcalls[0].keywords}
+        a_ = list(hcalls[0].args)
+        npt = kw.get("num_points", a_[0] if a_ else None)
+        dm = kw.get("dimension", a_[1] if len(a_) > 1 else None)
+        if st_ and npt is not None and dm is not None:
+            npx, dmx = text(npt), text(TH.expand(dm, at=st_[0]))
+            if dmx != "len(%s)" % d_ or npx != ns_:
+                wstate = False
     ctx.check3(wstate, "R3", "doe.build_halton", where(doe, bh), "halton(num_samples, number of declared parameters), scaled by the unit-affine map (C08-R3)",
-               "halton is not called with (number of samples, number of declared parameters): %s" % (text(c[0]) if c else ""), "wiring not recognised", key="wiring")
+               "halton is not called with (number of samples, number of declared parameters): %s" % (text(hcalls[0]) if hcalls else ""), "wiring not recognised", key="wiring")
     ctx.assume("primality of the sieve _primes_from_2_to and the equivalence recurrence = radical inverse are a theorem/pattern, not re-proved")
 
 
@@ -466,8 +479,10 @@ def r4_lhs(ctx, repo):
                     break
     bl = doe.functions.get("build_lhs")
     c = [c for c in calls_in(bl) if access_path(c.func) == "lhs"]
-    okw = bool(c) and not any(k.arg == "criterion" for k in c[0].keywords) and {k.arg: text(k.value) for k in c[0].keywords}.get("samples") == "num_samples" \
-        and {k.arg: text(k.value) for k in c[0].keywords}.get("n") == "factor_count"
+    dl_ = func_params(bl)[0]
+    nl_ = func_params(bl)[1] if len(func_params(bl)) > 1 else "num_samples"
+    rtl = [canonical(t) for _, t in Terms(bl).returns if t is not None]
+    okw = bool(rtl) and all(r == "construct_df_from_random_matrix(lhs(n=len({d}), samples={n}), np.array([{d}[_0] for _0 in {d}]))".format(d=dl_, n=nl_) for r in rtl)
     dstate = True if (okd and okw) else (False if (c and (not okw or not okd)) else None)
     ctx.check3(dstate, "R4", "doe.lhs/build_lhs", where(doe, lf), "build_lhs calls lhs(n=#parameters, samples=N) without criterion, which takes the classic construction",
                "the default Latin-hypercube path does not run the classic one-sample-per-stratum construction with (n=#parameters, samples=N)", "wiring not recognised", key="default-criterion")
